@@ -17,9 +17,9 @@ namespace Pya.C08
 
 /-! ## 1. No Any, no union: first match -/
 
-/-- The full statement of the first sentence of the property, for pyanalyze's judge: for arguments
-containing no Any and no union the call is typed with the return type of the first accepting
-overload and diagnosed exactly when there is none. **False as it stands** (`emptyVarPos_witness`). -/
+/-- The first sentence of the property, for pyanalyze's judge: for arguments containing no Any and
+no union the call is typed with the return type of the first accepting overload and diagnosed
+exactly when there is none. -/
 def FirstMatchFull (tbl : ClassTable) (sigs : List OSig) (a : CallArgs) : Prop :=
   NoAny a = true → NoUnion a = true → RetsNormal sigs = true →
     resolve (liveJudge tbl) sigs a = firstMatch (liveJudge tbl) sigs a
@@ -39,21 +39,18 @@ theorem overload_first_match_of_noAnyMatch (J : Judge) (sigs : List OSig) (a : C
     simp only [RetsNormal, List.all_eq_true] at hr
     simp [unite_normalRet (hr s hs)]
 
-/-- **First match for pyanalyze's judge, under `¬ D08_emptyVarPos`.** For every class table on which
-`tuple` is its own generic base, every overload set with flat parameter annotations (classes,
+/-- **First match for pyanalyze's judge — full strength on the fragment.** For every class table on
+which `tuple` is its own generic base, every overload set with flat parameter annotations (classes,
 literals, `Any`, unions of those), distinct parameter names and no `**kwargs`, and every call whose
-arguments contain no Any and no union: unless some overload binds the call with an *empty `*args`
-pack*, the result is first-match. -/
-theorem overload_first_match_partial (tbl : ClassTable) (hself : TupleSelf tbl = true)
-    (sigs : List OSig) (a : CallArgs) (hp : PlainSigs sigs = true)
-    (hD : D08_emptyVarPos sigs a = false) : FirstMatchFull tbl sigs a := by
+arguments contain no Any and no union, the result is first-match. (Before the repair of
+`emptyVarPos` in /repo this needed the hypothesis that no overload binds the call with an empty
+`*args` pack.) -/
+theorem overload_first_match (tbl : ClassTable) (hself : TupleSelf tbl = true)
+    (sigs : List OSig) (a : CallArgs) (hp : PlainSigs sigs = true) : FirstMatchFull tbl sigs a := by
   intro hna hnu hr
   apply overload_first_match_of_noAnyMatch _ sigs a hnu hr
   intro s hs
-  have he : emptyPack s a = false := by
-    simp only [D08_emptyVarPos, List.any_eq_false] at hD
-    simpa using hD s hs
-  exact usedAnyIn_live_false tbl hself (plainSig_of sigs hp s hs) (noAny_vals hna) he
+  exact usedAnyIn_live_false tbl hself (plainSig_of sigs hp s hs) (noAny_vals hna)
 
 /-- **Diagnosed exactly when no overload accepts** — for every judge and every call without a union
 argument, Any arguments included. -/
@@ -73,7 +70,7 @@ theorem overload_diagnosed_iff (J : Judge) (sigs : List OSig) (a : CallArgs) (hu
     intro h
     rw [h s hs] at ha; simp at ha
 
-/-! ### exception class `emptyVarPos` -/
+/-! ### repaired class `emptyVarPos` (regression witness) -/
 
 def tInt : Ty := .typed C.int
 def tStr : Ty := .typed C.str
@@ -82,24 +79,15 @@ def wSigs : List OSig := [⟨[⟨"r", .varPos, false, tInt⟩], tInt⟩, ⟨[⟨
 /-- `f()` -/
 def wArgs : CallArgs := ⟨[], []⟩
 
-/-- **Witness for `emptyVarPos`.** `f()` against `(*r: int) -> int`, `(*r: str) -> str`: no Any, no
-union, first match says `int`, the kernel says `Any[multiple_overload_matches]`. -/
-theorem emptyVarPos_witness : ¬ FirstMatchFull liveTable wSigs wArgs := by
-  intro h
-  have h1 := h (by decide) (by decide) (by decide)
+/-- **Regression witness of the repaired defect.** `f()` against `(*r: int) -> int`, `(*r: str) -> str`
+is typed `int`; before the repair the empty pack made both overloads Any-matches and the result was
+`Any[multiple_overload_matches]`. -/
+theorem emptyVarPos_fixed : resolve (liveJudge liveTable) wSigs wArgs = .ok tInt := by
   have b1 : ∀ T r, (OSig.bind ⟨[⟨"r", .varPos, false, T⟩], r⟩ wArgs) = some [("r", .dflt)] := by
     intro T r; rfl
-  have hres : resolve (liveJudge liveTable) wSigs wArgs = .anyMulti := by
-    simp [resolve, wSigs, b1, ovLoop, checkOne, tasks, entryTask, entryVal, OParam.annot, chkStep, liveJudge,
-      acc_emptyPack liveTable tupleSelf_live, used_emptyPack liveTable tupleSelf_live, tInt, tStr, uniteRets,
-      dedup, dictMem, Ty.hashEq, C.int, C.str]
-  have hfm : firstMatch (liveJudge liveTable) wSigs wArgs = .ok tInt := by
-    simp [firstMatch, wSigs, accepts, b1, tasks, entryTask, entryVal, OParam.annot, liveJudge,
-      acc_emptyPack liveTable tupleSelf_live, tInt]
-  rw [hres, hfm] at h1
-  cases h1
-
-example : D08_emptyVarPos wSigs wArgs = true := by decide
+  simp [resolve, wSigs, b1, ovLoop, checkOne, tasks, entryTask, entryVal, OParam.annot, chkStep, liveJudge,
+    acc_emptyPack liveTable tupleSelf_live, tInt, tStr, uniteRets, unite, flatten1,
+    dedup, dictMem, C.int, C.str]
 
 /-! ## 2. Exactly one union argument -/
 
@@ -118,30 +106,28 @@ def UnionContainsFull (tbl : ClassTable) (sigs : List OSig) (a : CallArgs) (slot
   ∃ rets, T = unite rets ∧
     ∀ m ∈ ms, ∀ R, firstMatch (liveJudge tbl) sigs (a.setAt slot m) = .ok R → R ∈ rets
 
-/-- **Union acceptance under `¬ D08_unionInVarPos` (and `¬ D08_emptyVarPos`).** Exactly one argument
+/-- **Union acceptance under `¬ D08_unionInVarPos`.** Exactly one argument
 is a union: if every member's own call is accepted by some overload, the call is accepted and typed
 (no diagnostic, and — no Any being involved — no `Any[multiple_overload_matches]` either). For every
 class table with `TupleSelf`, every plain overload set and every call. -/
 theorem overload_union_accept_partial (tbl : ClassTable) (hself : TupleSelf tbl = true)
     (sigs : List OSig) (a : CallArgs) (slot : Pos) (ms : List Ty) (hp : PlainSigs sigs = true)
-    (hD1 : D08_emptyVarPos sigs a = false)
     (hD2 : D08_unionInVarPos sigs (a.setAt slot (.union ms)) = false) :
     UnionAcceptFull tbl sigs a slot ms := by
   intro h hacc
   exact resolve_union_accept (unionCtx_of tbl a slot ms h) h.two sigs
-    (slotOK_of tbl hself sigs a slot ms hp h hD1 hD2) hacc
+    (slotOK_of tbl hself sigs a slot ms hp h hD2) hacc
 
 /-- **Union containment under the same hypotheses.** The type of the call is `unite_values(*rets)`
 for a list `rets` of overload return types that contains, for every member of the union whose own
 call is accepted, the return type first-match gives that call. -/
 theorem overload_union_contains_partial (tbl : ClassTable) (hself : TupleSelf tbl = true)
     (sigs : List OSig) (a : CallArgs) (slot : Pos) (ms : List Ty) (hp : PlainSigs sigs = true)
-    (hD1 : D08_emptyVarPos sigs a = false)
     (hD2 : D08_unionInVarPos sigs (a.setAt slot (.union ms)) = false) :
     UnionContainsFull tbl sigs a slot ms := by
   intro h T hres
   exact resolve_union_contains (unionCtx_of tbl a slot ms h) h.two sigs
-    (slotOK_of tbl hself sigs a slot ms hp h hD1 hD2) T hres
+    (slotOK_of tbl hself sigs a slot ms hp h hD2) T hres
 
 /-- What "contains" means for the united type: every alternative of every type in `rets` is one of
 the members `unite_values` keeps, literally or as an equal dict key (same hash and `==`). -/
@@ -242,7 +228,6 @@ def exArgs : CallArgs := ⟨[tInt, tStr], []⟩
 example : PlainSigs exSigs = true := by decide
 example : RetsNormal exSigs = true := by decide
 example : NoAny exArgs = true ∧ NoUnion exArgs = true := by decide
-example : D08_emptyVarPos exSigs exArgs = false := by decide
 example : OneUnion exArgs (.idx 0) [tInt, tStr] := by decide
 example : D08_unionInVarPos exSigs (exArgs.setAt (.idx 0) (.union [tInt, tStr])) = false := by decide
 example : RetsNormal [⟨[], .union [tInt, .known .none]⟩] = true := by decide
